@@ -53,7 +53,11 @@ def plan(tier, seed):
     k = [{"gen": "kuloss", "seeds": [base + 800000 + i + j for j in range(per)]} for i in range(0, n_ku, per)]
     n_sp = 40 if tier == "quick" else 1000
     sp = [{"gen": "stalepath", "seeds": [base + 900000 + i + j for j in range(per)]} for i in range(0, n_sp, per)]
-    while r or t or k or sp:
+    n_bl = 60 if tier == "quick" else 1500
+    bl = [{"gen": "blocked", "seeds": [base + 950000 + i + j for j in range(per)]} for i in range(0, n_bl, per)]
+    while r or t or k or sp or bl:
+        if bl:
+            out.append(bl.pop(0))
         for _ in range(4):
             if r:
                 out.append(r.pop(0))
@@ -103,6 +107,46 @@ def kuloss_case(seed):
     sc["script"] = script
     sc["horizon"] = t0 + dur + 160.0
     return sc
+
+
+def blocked_case(seed):
+    """Directed: the receiver advertises small flow-control windows (a legal configuration), the sender writes far more
+    than that — after its first flight it is blocked by flow control with data still waiting — and the whole outstanding
+    flight (or the receiver's window updates) is lost for a while; then the network is fair. Probe timeouts have to keep
+    eliciting acknowledgements although nothing new may be sent."""
+    import random
+
+    from ..scenarios import gen_config
+
+    rng = random.Random("blocked/%s" % seed)
+    opts = gen_config(rng)
+    for k in ("retry", "frontend_vn"):
+        opts.pop(k, None)
+    if opts.get("versions_server") == ["v1"]:
+        opts.pop("versions_server")
+    a = rng.choice(["client", "server"])
+    b = "server" if a == "client" else "client"
+    which = rng.choice(["stream", "stream", "connection", "both"])
+    w = rng.choice([1500, 2000, 4000, 8000, 20000])
+    if which in ("stream", "both"):
+        opts["max_stream_data_" + b] = w
+    if which in ("connection", "both"):
+        opts["max_data_" + b] = w if which == "connection" else rng.choice([w, 2 * w])
+    t0 = rng.choice([0.4, 0.7, 1.3])
+    dur = rng.choice([0.3, 1.0, 3.0, 6.0])
+    direction = rng.choice([None, None, "c2s" if a == "client" else "s2c", "s2c" if a == "client" else "c2s"])
+    black = [t0 + rng.choice([0.0005, 0.003]), t0 + dur] + ([direction] if direction else [])
+    delay = rng.choice([0.005, 0.02, 0.05])
+    fates = {"delay": delay, "adv_seconds": t0 + dur + 0.5, "adv_dgrams": 10**6, "loss": 0.0, "blackouts": [black]}
+    uni = rng.random() < 0.3
+    sid = (0 if a == "client" else 1) + (2 if uni else 0) + 4 * 50
+    script = [{"t": t0, "side": a, "op": "write", "sid": sid, "n": w * rng.choice([2, 3, 10]) + rng.choice([0, 1, 777]), "fin": True}]
+    if rng.random() < 0.4:
+        script.append({"t": t0, "side": a, "op": "write", "sid": sid + 4, "n": rng.choice([100, w, 3 * w]), "fin": True})
+    if rng.random() < 0.3:
+        script.append({"t": t0 + dur * 0.5, "side": a, "op": "ping", "uid": 77})
+    script.sort(key=lambda o: o["t"])
+    return {"seed": seed, "opts": opts, "fates": fates, "script": script, "lateness": 0.0, "horizon": t0 + dur + 200.0}
 
 
 def stalepath_case(seed):
@@ -278,6 +322,13 @@ def run_batch(batch):
             res.count("stalepath_cases")
             res.count("stalepath_cases_with_late_old_address_datagram", 1 if sc["fates"].get("forced") else 0)
             res.count("obs_datagrams_to_stale_address", sim.stale_address_drops)
+        elif batch["gen"] == "blocked":
+            sc = blocked_case(seed)
+            sim, dm, ok = run_scenario(sc, res, {"gen": "blocked", "seeds": [seed]})
+            res.count("blocked_cases")
+            if ok:
+                res.sample({"gen": "blocked", "seed": seed, "opts": sc["opts"], "fates": sc["fates"], "script": sc["script"], "bytes_checked": dm.bytes_checked,
+                            "streams_ended": dm.end_events, "virtual_end": round(sim.now, 2)}, limit=1)
         elif batch["gen"] == "kuloss":
             sc = kuloss_case(seed)
             sim, dm, ok = run_scenario(sc, res, {"gen": "kuloss", "seeds": [seed]})
